@@ -43,6 +43,10 @@ class NoValue:
     """Override for `copy.copy()` that does not copy this sentinel object."""
     return self
 
+  def __reduce__(self):
+    """Pickles as a reference to the `NO_VALUE` singleton of this module."""
+    return 'NO_VALUE'
+
 
 NO_VALUE = NoValue()
 
